@@ -178,6 +178,22 @@ def nndvi_history(rng, nb, equal_sizes=False, some_even=False):
     return script
 
 
+def nndvi_history_wide(rng, nb, k):
+    """histories for a neighbourhood size k that is larger than some batches have rows (legal: the neighbours are looked for among the POOLED distinct
+    points of both batches).  Any two batches of the history pool to at least k + 1 distinct points."""
+    d = 2
+    loc, spread = [rng.randint(-3, 3) for _ in range(d)], rng.randint(5, 7)
+    batches = []
+    while len(batches) < nb + 1:
+        if batches and rng.random() < 0.35:
+            loc = [x + rng.choice([-1, 1]) * rng.randint(2, 6) for x in loc]
+        n = rng.randint(16, 24) if not batches else rng.choice([rng.randint(4, k - 1), rng.randint(4, k - 1), rng.randint(12, 20)])
+        b = lattice(rng, n, d, loc, spread)
+        if all(len({tuple(r) for r in b + o}) > k for o in batches) and len({tuple(r) for r in b}) > 2:
+            batches.append(b)
+    return [("set_reference", batches[0])] + [("update", b) for b in batches[1:]]
+
+
 def sabotage(trace, rng):
     ks = [k for k, e in enumerate(trace["ev"]) if e["op"] in ("update", "build")]
     k = rng.choice(ks)
